@@ -49,7 +49,7 @@ def signature_universes():
 
 
 def _one(args):
-    repo, tier, base, idx, mode = args
+    repo, tier, base, idx, mode, owned = args
     program = Program(repo)
     if mode == "sig":
         uname, specs = signature_universes()[idx]
@@ -69,7 +69,7 @@ def _one(args):
         return [a for a in base_actions(w, g) if a in acts]
 
     r = close(program, world, dict(sm.GHOST0), actions, sm.run_sm_action, mon,
-              lambda: sm.SMHooks(specs, max_script, max_nest), configure=sm.configure)
+              lambda: sm.SMHooks(specs, max_script, max_nest), configure=sm.configure, stop_rules=owned)
     cls = world["machine"].cls
     tun = {}
     for k, v in cls.ns.items():
@@ -84,9 +84,9 @@ def _one(args):
     }
 
 
-def run_universes(ctx, base="StateMachine", mode="full"):
+def run_universes(ctx, base="StateMachine", mode="full", owned=None):
     n = len(signature_universes()) if mode == "sig" else len(sm.universes(ctx.tier, base))
-    jobs = [(ctx.repo, ctx.tier, base, i, mode) for i in range(n)]
+    jobs = [(ctx.repo, ctx.tier, base, i, mode, set(owned) if owned else None) for i in range(n)]
     procs = min(len(jobs), max(1, (os.cpu_count() or 2)))
     if procs > 1 and not os.environ.get("VERIF_SERIAL"):
         with mp.get_context("fork").Pool(procs) as pool:
